@@ -188,7 +188,7 @@ def work(arg):
         case = {"bname": bname, "b": b.hex(), "s1name": s1n, "s1": s1.hex() if s1 is not None else None, "s2name": s2n,
                 "s2": s2.hex() if s2 is not None else None, "tmark": tmark, "seq": seq}
         dmg = (s1n.split(":")[-1].split("=")[0].rstrip("0123456789[],-+") or "x")
-        klass = {"check": "C08", "damage": dmg, "op": seq[0] if seq[0] != "n" else "n+" + seq.split(",")[-1][0]}
+        klass = {"check": "C08", "damage": dmg, "op": seq[0] if seq[0] not in "nv" else seq[0] + "+" + seq.split(",")[-1][0]}
         pl = c.first("P")
         if not c.done or pl is None:
             res["viol"].append((dict(klass, predicate="crash-or-hang"), "%s <- %s mark %s seq %s: %s" % (bname, s1n, tmark, seq, c.status()), case))
@@ -211,7 +211,7 @@ def work(arg):
             si = 0 if q["op"][1] == "1" else 1
             ps = sparse((s1, s2)[si])
             t1 = core.unhex(q["tfile"])
-            if q["op"][0] == "n":
+            if q["op"][0] in "nv":
                 if t1 != t_prev or q["flags"] != flags:
                     bad = ("option-call-modified-target", "step %s (%s)" % (q["step"], q["op"]))
                     break
@@ -286,6 +286,9 @@ def run(ctx):
                         # ZCK_NO_WRITE set on the target context (accepted by read contexts): whatever the copy then marks
                         # valid or failed must still be true of the bytes in the file
                         cases += [(mk[0], "nt,c1"), (mk[len(mk) // 2], "nt,c1")]
+                        # contexts with a past: the lead validated again on the opened target / source before the copy (a matching
+                        # call before a copy is not in the alphabet: it marks by index comparison alone, see DESIGN.md section 14)
+                        cases += [(mk[0], "vt,c1"), (mk[0], "v1,c1"), (mk[len(mk) // 2], "vt,c1,c1")]
                     groups.append(("%s:%s:%s" % (aw, cfg.name(), dn), da, "-", None, cases))
             for ch in core.chunks(groups, 60):
                 jobs.append(("%s:%s" % (bw, cfg.name()), b, ch))
